@@ -602,6 +602,10 @@ def r01_9(ctx):
 
 
 def run(ctx):
+    # R01.11 = R08.4: after update() / update_params() the kernel integrates the NEW data: every stored array of an updatable input
+    # is refreshed, nothing derived from it stays precomputed
+    import rules.C08 as c08
+    ctx.shared(c08.r08_4, 'R08.4', 'R01.11')
     r01_1(ctx)
     r01_2(ctx)
     r01_8(ctx)
